@@ -95,22 +95,21 @@ pub proof fn lemma_keep_ext(s: Seq<RetainedMessage>, f: spec_fn(RetainedMessage)
 }
 
 // The case analysis of a read inside one segment, on the abstract view: `d` = what is on disk, `b` = what is buffered,
-// together contiguous from `first`; the split point is the first buffered offset `fbo`.
-pub open spec fn max_int(a: int, b: int) -> int { if a >= b { a } else { b } }
+// together contiguous from `first`; the split point is the first buffered offset `fbo`: everything on disk is below it,
+// everything buffered is at or above it. Stated for arbitrary bounds so that it does not depend on how the code writes them.
 pub proof fn lemma_tier_split(d: Seq<RetainedMessage>, b: Seq<RetainedMessage>, first: int, lo: int, hi: int)
     requires contig(d + b, first), b.len() > 0,
     ensures
         b[0].offset == first + d.len(),
-        // buffer only
-        lo >= b[0].offset ==> slice_of(d + b, lo, hi) == slice_of(b, lo, hi),
-        // disk only
-        hi < b[0].offset ==> slice_of(d + b, lo, hi) == slice_of(d, lo, hi),
-        // spanning the boundary: the disk part up to fbo-1, then the buffer part from max(lo, fbo)
-        (lo < b[0].offset <= hi) ==> slice_of(d + b, lo, hi) == slice_of(d, lo, b[0].offset - 1) + slice_of(b, max_int(lo, b[0].offset as int), hi),
-        lo >= b[0].offset ==> slice_of(d + b, lo, hi) == slice_of(b, max_int(lo, b[0].offset as int), hi),
+        slice_of(d + b, lo, hi) == slice_of(d, lo, hi) + slice_of(b, lo, hi),
+        // an upper bound at or above fbo-1 does not restrict the disk part; a lower bound at or below fbo does not restrict the buffer part
+        forall|x: int, y: int| x >= b[0].offset - 1 && y >= b[0].offset - 1 ==> #[trigger] slice_of(d, lo, x) == #[trigger] slice_of(d, lo, y),
+        forall|x: int, y: int| x <= b[0].offset && y <= b[0].offset ==> #[trigger] slice_of(b, x, hi) == #[trigger] slice_of(b, y, hi),
+        // nothing on disk at or above fbo, nothing buffered below it
+        forall|x: int, y: int| x >= b[0].offset ==> #[trigger] slice_of(d, x, y) == Seq::<RetainedMessage>::empty(),
+        forall|x: int, y: int| y < b[0].offset ==> #[trigger] slice_of(b, x, y) == Seq::<RetainedMessage>::empty(),
 {
     let s = d + b;
-    let e = Seq::<RetainedMessage>::empty();
     lemma_keep_add(d, b, off_in(lo, hi));
     assert(forall|i: int| 0 <= i < d.len() ==> d[i] == s[i]);
     assert(forall|i: int| 0 <= i < b.len() ==> b[i] == s[d.len() + i]);
@@ -118,10 +117,18 @@ pub proof fn lemma_tier_split(d: Seq<RetainedMessage>, b: Seq<RetainedMessage>, 
     let fbo = b[0].offset as int;
     assert(forall|i: int| 0 <= i < d.len() ==> (#[trigger] d[i]).offset < fbo);
     assert(forall|i: int| 0 <= i < b.len() ==> (#[trigger] b[i]).offset >= fbo);
-    if lo >= fbo { lemma_keep_none(d, off_in(lo, hi)); assert(e + slice_of(b, lo, hi) =~= slice_of(b, lo, hi)); }
-    if hi < fbo { lemma_keep_none(b, off_in(lo, hi)); assert(slice_of(d, lo, hi) + e =~= slice_of(d, lo, hi)); }
-    if hi >= fbo - 1 { lemma_keep_ext(d, off_in(lo, fbo - 1), off_in(lo, hi)); }
-    lemma_keep_ext(b, off_in(max_int(lo, fbo), hi), off_in(lo, hi));
+    assert forall|x: int, y: int| x >= fbo - 1 && y >= fbo - 1 implies #[trigger] slice_of(d, lo, x) == #[trigger] slice_of(d, lo, y) by {
+        lemma_keep_ext(d, off_in(lo, x), off_in(lo, y));
+    }
+    assert forall|x: int, y: int| x <= fbo && y <= fbo implies #[trigger] slice_of(b, x, hi) == #[trigger] slice_of(b, y, hi) by {
+        lemma_keep_ext(b, off_in(x, hi), off_in(y, hi));
+    }
+    assert forall|x: int, y: int| x >= fbo implies #[trigger] slice_of(d, x, y) == Seq::<RetainedMessage>::empty() by {
+        lemma_keep_none(d, off_in(x, y));
+    }
+    assert forall|x: int, y: int| y < fbo implies #[trigger] slice_of(b, x, y) == Seq::<RetainedMessage>::empty() by {
+        lemma_keep_none(b, off_in(x, y));
+    }
 }
 
 // ---- R8 schemas (A-std) ------------------------------------------------------------------------------------------
@@ -134,10 +141,11 @@ pub open spec fn partitioned<T>(s: Seq<T>, p: spec_fn(T) -> bool) -> bool {
 pub trait VecPartitionPoint<T> {
     spec fn ppv(&self) -> Seq<T>;
     fn partition_point_spec(&self, p: Ghost<spec_fn(T) -> bool>) -> (r: usize)
+        requires partitioned(self.ppv(), p@),       // a call on a slice that is not partitioned has no meaning: made an obligation
         ensures
             r <= self.ppv().len(),
-            partitioned(self.ppv(), p@) ==> (forall|i: int| 0 <= i < r ==> (p@)(#[trigger] self.ppv()[i]))
-                && (forall|i: int| r <= i < self.ppv().len() ==> !(p@)(#[trigger] self.ppv()[i]));
+            forall|i: int| 0 <= i < r ==> (p@)(#[trigger] self.ppv()[i]),
+            forall|i: int| r <= i < self.ppv().len() ==> !(p@)(#[trigger] self.ppv()[i]);
 }
 impl<T> VecPartitionPoint<T> for Vec<T> {
     open spec fn ppv(&self) -> Seq<T> { self@ }
